@@ -185,7 +185,7 @@ fn table_paths<T: public_suffix::Table>(_: &public_suffix::ListProvider<T>) -> V
 
 pub fn run(ctx: &mut Ctx) {
     let fs = ctx.first_shard();
-    ctx.rule = "sweep: every rule of public_suffix_list.dat (A-label form) as itself, with 1-3 labels prepended, with its leading label removed and replaced, with labels of 63 / 64 / 200 bytes below it, and with each of the list's most frequent labels (48 in the quick tier, all that occur twice in the thorough tier) placed directly below it; every node path of the compiled table (read through the public Table constants) as a name and with one more label; random: 1-8 labels from the list's label vocabulary and fresh labels, optionally on top of a list rule; structural: arbitrary strings (ASCII/Unicode/empty labels/long/mixed case). Non-trivial = canonical name whose prevailing rule is not the implicit '*'; distinct by name.".into();
+    ctx.rule = "sweep: every rule of public_suffix_list.dat (A-label form) as itself, with 1-3 labels prepended, with its leading label removed and replaced, with labels of 63 / 64 / 200 bytes below it, and with each of the list's most frequent labels (48 in the quick tier, all that occur twice in the thorough tier) placed directly below it; every node path of the compiled table (read through the public Table constants) as a name and with one more label; random: 1-8 labels from the list's label vocabulary and fresh labels, optionally on top of a list rule; structural: arbitrary strings (ASCII/Unicode/empty labels/long/mixed case). Since round 8 every lookup also from a generic caller and through a trait object. Non-trivial = canonical name whose prevailing rule is not the implicit '*'; distinct by name.".into();
     ctx.assumptions = vec![
         "agreement with the reference is asserted for every name without empty labels; the reference matches labels literally against the list's A-label rules (so upper-case or Unicode labels match no rule, exactly like in a byte-wise table lookup); strings with empty labels get the structural checks only".into(),
         "the reference converts Unicode rules of the .dat with the idna crate (UTS-46 to-ASCII)".into(),
